@@ -8,10 +8,10 @@ import BytomModel.Model.Store
 namespace BytomModel.Ties.C21
 
 /-- which cache invalidation the model performs after which DB write:
-    `Store.saveBlock` → only `cHashes.remove`, `saveBlockHeader` → `cHdr.remove`,
+    `Store.saveBlock` → `cHashes.remove` then `cHdr.remove` (941b4124), `saveBlockHeader` → `cHdr.remove`,
     `saveChainStatus` → `cMain.remove` per header, `saveCheckpoints` → `cCkpt.remove` per key -/
 def modelInvalidations : List (String × List String) := [
-  ("SaveBlock", ["removeBlockHashes"]),
+  ("SaveBlock", ["removeBlockHashes", "removeBlockHeader"]),
   ("SaveBlockHeader", ["removeBlockHeader"]),
   ("SaveChainStatus", ["removeMainChainHash"]),
   ("SaveCheckpoints", ["removeCheckPoint"])
@@ -20,7 +20,7 @@ def modelInvalidations : List (String × List String) := [
 /-- the set of writing `Store` methods and the invalidation calls in each are what the model mirrors -/
 theorem invalidations_tie : modelInvalidations = BytomModel.Gen.CacheCalls.invalidations := by decide
 
-/-- `getCheckpoint` pokes the cached object because the source appends in place -/
-theorem getCheckpoint_append_tie : BytomModel.Gen.CacheCalls.getCheckpointAppendsInPlace = true := by decide
+/-- `getCheckpoint` leaves the cached object alone because the source no longer appends in place (fa651dae) -/
+theorem getCheckpoint_append_tie : BytomModel.Gen.CacheCalls.getCheckpointAppendsInPlace = false := by decide
 
 end BytomModel.Ties.C21
